@@ -417,7 +417,17 @@ def run_generator(genbin, s):
     if s.get("yang_text"):
         os.makedirs(s["yang_dir"], exist_ok=True)
         for fn, txt in s["yang_text"].items():
-            open(os.path.join(s["yang_dir"], fn), "w").write(txt)
+            # several specs share a directory and run in parallel: never truncate a file another
+            # generator may be reading (write aside and rename, and only when the text differs)
+            dst = os.path.join(s["yang_dir"], fn)
+            try:
+                if open(dst).read() == txt:
+                    continue
+            except OSError:
+                pass
+            tmp = "%s.%d.%s.tmp" % (dst, os.getpid(), s["name"])
+            open(tmp, "w").write(txt)
+            os.replace(tmp, dst)
     cmd = [genbin, "-logtostderr", "-path=" + ",".join(s["path"]), "-output_file=" + os.path.join(d, "gen.go"), "-package_name=" + s["name"]] + s["flags"]
     if s["path_structs"]:
         cmd.append("-path_structs_output_file=" + os.path.join(d, "paths.go"))
